@@ -31,6 +31,17 @@ class RunTimeout(BaseException):
     pass
 
 
+def _strict(o):
+    """strict JSON: non-finite floats (samples may hold inf / nan fitness values) are written as strings"""
+    if isinstance(o, float) and (o != o or o in (float("inf"), float("-inf"))):
+        return repr(o)
+    if isinstance(o, dict):
+        return {str(k): _strict(v) for k, v in o.items()}
+    if isinstance(o, (list, tuple)):
+        return [_strict(v) for v in o]
+    return o
+
+
 def load_prop(pid: str):
     return importlib.import_module(f"sim.props.{pid.lower()}")
 
@@ -206,7 +217,7 @@ def write_replay(pid, seed, ri, tier, params, rec, sig, msg, ctx, shrunk, tag=""
         "choice_counts": {k: len(v) for k, v in rec.items()},
     }
     with open(path, "w") as f:
-        json.dump(doc, f, indent=1, default=str)
+        json.dump(_strict(doc), f, indent=1, default=str, allow_nan=False)
     return path
 
 
@@ -437,7 +448,7 @@ def run_check(pid: str, tier: str) -> int:
     except HarnessError as e:
         ev_err = e
     with open(os.path.join(EVIDENCE, f"{pid}.json"), "w") as f:
-        json.dump(doc, f, indent=1, default=str)
+        json.dump(_strict(doc), f, indent=1, default=str, allow_nan=False)
     print(f"[{pid}] runs={agg['n']} distinct={len(agg['digests'])} nontrivial={dn} faults={dict(agg['faults'])} "
           f"known={len(known_seen)} new_violations={len(new_sigs)} errors={len(agg['errors'])} wall={wall:.1f}s", flush=True)
     if agg["errors"]:
